@@ -25,6 +25,8 @@ def import_dds() -> Any:
     if REPO not in sys.path:
         sys.path.insert(0, REPO)
     import dds  # noqa
+    import logging
+    logging.getLogger("dds").setLevel(logging.ERROR)
     f = os.path.realpath(dds.__file__)
     if not f.startswith(os.path.realpath(REPO) + os.sep):
         raise MachineryError("dds imported from %s, not from %s" % (f, REPO))
